@@ -18,6 +18,7 @@ from __future__ import annotations
 
 import contextlib
 import fcntl
+import hashlib
 import json
 import os
 import random
@@ -307,7 +308,10 @@ def match_known(prop, signature, known):
 
 def write_replay(prop, seed, idx, payload):
     REPLAYS.mkdir(exist_ok=True)
-    p = REPLAYS / f"{prop}-seed{seed}-{idx}.json"
+    # runs against another tree (seeded mutations, candidate fixes; several may run at once with the same seed) get their own
+    # file names, so that they neither overwrite each other's replays nor those of /repo
+    other = "" if REPO == Path("/repo") else "-" + hashlib.sha1(str(REPO).encode()).hexdigest()[:8]
+    p = REPLAYS / f"{prop}-seed{seed}{other}-{idx}.json"
     p.write_text(json.dumps(payload, indent=1, default=repr))
     return p
 
